@@ -99,7 +99,7 @@ fn read_nat(bits: &[bool], pos: &mut usize) -> Option<u64> {
             break;
         }
     }
-    let mut len: u64 = 0;
+    let mut len: u64 = 1;
     for _ in 0..ones {
         if len > 62 {
             return None;
@@ -112,7 +112,7 @@ fn read_nat(bits: &[bool], pos: &mut usize) -> Option<u64> {
         }
         len = v;
     }
-    Some(if ones == 0 { 1 } else { len })
+    Some(len)
 }
 
 /// relative reference `rel` of node `idx`; `None` if it does not point strictly backwards
